@@ -373,6 +373,273 @@ def _kinds(node):
     return {x.get('k') for x in H.walk(node)}
 
 
+# ---- path-sensitive reading of a loop-free MIR body: the decisions of a function as a table over the values it tests,
+# independent of how the tests are spelled (guard / named condition + early return / tuple match / nested matches /
+# is_none + return / let-else / match)
+class _Undecidable(Exception):
+    pass
+
+
+class _Need(Exception):
+    def __init__(self, atom, domain):
+        self.atom, self.domain = atom, domain
+
+
+_PREDS = {'is_some': ('Some', True), 'is_none': ('Some', False), 'is_ok': ('Ok', True), 'is_err': ('Ok', False)}
+
+
+def _freeze(v):
+    return repr(v)
+
+
+class _Paths:
+    """Enumerate the entry-to-return paths of a loop-free body. Every value a switch tests is traced to *atoms*: results
+    of calls (named by the last segment of the callee) and fields of arguments (named by the field). A path = the
+    values it assumed for the atoms it looked at, the calls it made, the aggregates it built, the value it returns."""
+
+    def __init__(self, F, body, limit=4000):
+        self.F, self.body, self.limit = F, body, limit
+        self.paths = []
+
+    # -- values: ('const', text) ('atom', name) ('not', v) ('pred', variant, polarity, v) ('proj', v, key)
+    #            ('tuple', [v]) ('adt', path, variant, {field: v}) ('binop', op, a, b) ('unk', id)
+    def place(self, st, p):
+        l = p['l']
+        v = st['env'].get(l)
+        if v is None:
+            if 1 <= l <= self.body.argc:
+                v = ('arg', self.body.local_name(l))
+            else:
+                v = ('unk', 'local%d' % l)
+        for pr in p.get('p') or []:
+            if pr == '*':
+                continue
+            if isinstance(pr, dict) and 'f' in pr:
+                if v[0] == 'tuple' and pr['f'].isdigit() and int(pr['f']) < len(v[1]):
+                    v = v[1][int(pr['f'])]
+                elif v[0] == 'adt' and pr['f'] in v[3]:
+                    v = v[3][pr['f']]
+                elif v[0] == 'arg':
+                    v = self.atom(st, pr['f'], ('field', v[1], pr['f']), pr.get('ty') or '')
+                else:
+                    v = ('proj', v, 'f:' + pr['f'])
+            elif isinstance(pr, dict) and 'v' in pr:
+                v = ('proj', v, 'v:' + str(pr['v']))
+            else:
+                v = ('proj', v, 'other:' + _freeze(pr))
+        return v
+
+    def operand(self, st, o):
+        if 'cp' in o or 'mv' in o:
+            return self.place(st, o.get('cp') or o.get('mv'))
+        if 'fn' in o:
+            return ('fn', o['fn'])
+        return ('const', str(o.get('c')))
+
+    def atom(self, st, name, key, ty):
+        k = _freeze(key)
+        if k not in st['atoms']:
+            n = sum(1 for a in st['atoms'].values() if a.split('#')[0] == name)
+            st['atoms'][k] = name if n == 0 else '%s#%d' % (name, n + 1)
+            st['types'][st['atoms'][k]] = ty
+        return ('atom', st['atoms'][k])
+
+    def rvalue(self, st, rv, where):
+        k = rv['k']
+        if k == 'use':
+            return self.operand(st, rv['o'])
+        if k == 'ref':
+            return self.place(st, rv['pl'])          # references are transparent on a straight-line path
+        if k == 'cast':
+            return self.operand(st, rv['o'])
+        if k == 'discr':
+            return ('discr', self.place(st, rv['pl']), rv.get('ty') or '')
+        if k == 'unop' and rv.get('op') == 'Not':
+            return ('not', self.operand(st, rv['o']))
+        if k == 'binop':
+            return ('binop', rv.get('op'), self.operand(st, rv['a']), self.operand(st, rv['b']))
+        if k == 'agg':
+            ops = [self.operand(st, o) for o in rv.get('ops') or []]
+            if rv.get('ak') == 'tuple':
+                return ('tuple', ops)
+            if rv.get('ak') == 'adt':
+                v = ('adt', rv.get('adt'), rv.get('variant'), dict(zip(rv.get('fields') or [], ops)))
+                st['built'].append(v)
+                return v
+        return ('unk', where)
+
+    # -- deciding a tested value
+    def variant_of(self, st, v, ty):
+        """Variant name held by enum value v."""
+        if v[0] == 'adt':
+            return v[2]
+        if v[0] == 'atom':
+            if v[1] in st['assign']:
+                return st['assign'][v[1]]
+            names = Q.variant_names(self.F, st['types'].get(v[1]) or ty)
+            if not names:
+                raise _Undecidable('enum type of %s unknown' % v[1])
+            raise _Need(v[1], names)
+        raise _Undecidable('an enum value that is neither built nor the result of a call is tested: %s' % (v,))
+
+    def truth(self, st, v):
+        if v[0] == 'const' and v[1] in ('true', 'false'):
+            return v[1] == 'true'
+        if v[0] == 'not':
+            return not self.truth(st, v[1])
+        if v[0] == 'pred':
+            return (self.variant_of(st, v[3], '') == v[1]) == v[2]
+        if v[0] == 'atom':
+            if v[1] in st['assign']:
+                return st['assign'][v[1]]
+            if st['types'].get(v[1]) != 'bool':
+                raise _Undecidable('%s is tested as a flag but is not a bool' % v[1])
+            raise _Need(v[1], [False, True])
+        raise _Undecidable('a flag of unknown origin is tested: %s' % (v,))
+
+    def target(self, st, t):
+        v = self.operand(st, t['d'])
+        if v[0] == 'discr':
+            names = Q.variant_names(self.F, v[2])
+            nm = self.variant_of(st, v[1], v[2])
+            if not names or nm not in names:
+                raise _Undecidable('variants of %s unknown' % v[2])
+            val = names.index(nm)
+        elif t.get('dty') == 'bool':
+            val = int(self.truth(st, v))
+        else:
+            raise _Undecidable('an integer switch on %s' % (v,))
+        for x, tgt in t['ts']:
+            if x == val:
+                return tgt
+        return t['else']
+
+    def run(self):
+        st0 = dict(env={}, atoms={}, types={}, assign={}, calls=[], built=[], seen=frozenset(), b=0)
+        work = [st0]
+        while work:
+            if len(self.paths) + len(work) > self.limit:
+                raise _Undecidable('too many paths')
+            st = work.pop()
+            self.walk(st, work)
+        return self.paths
+
+    def fork(self, st):
+        n = dict(st)
+        n['env'] = dict(st['env'])
+        n['atoms'] = dict(st['atoms'])
+        n['types'] = dict(st['types'])
+        n['assign'] = dict(st['assign'])
+        n['calls'] = list(st['calls'])
+        n['built'] = list(st['built'])
+        return n
+
+    def walk(self, st, work):
+        body = self.body
+        while True:
+            b = st['b']
+            if b in st['seen']:
+                raise _Undecidable('loop through bb%d' % b)
+            st['seen'] = st['seen'] | {b}
+            blk = body.blocks[b]
+            for j, s in enumerate(blk['s']):
+                if s['k'] == 'assign':
+                    v = self.rvalue(st, s['rv'], 'bb%d.%d' % (b, j))
+                    if not s['lhs'].get('p'):
+                        st['env'][s['lhs']['l']] = v
+                    # writes through projections are not modelled: the base keeps its value
+            t = blk['t']
+            k = t['k']
+            if k == 'return':
+                st['ret'] = st['env'].get(0, ('unk', 'ret'))
+                self.paths.append(st)
+                return
+            if k in ('goto', 'drop', 'assert', 'falseedge', 'falseunwind'):
+                if t.get('to') is None:
+                    return
+                st['b'] = t['to']
+                continue
+            if k == 'call':
+                args = [self.operand(st, a) for a in t['a']]
+                name = last(re.sub(r'::<[^>]*>', '', (t['f'].get('def') or t['f'].get('decl') or '?')))
+                st['calls'].append((name, args, t))
+                if name in _PREDS and len(args) == 1:
+                    v = ('pred', _PREDS[name][0], _PREDS[name][1], args[0])
+                else:
+                    mutating = any((ty or '').startswith('&mut') for ty in t.get('at') or [])
+                    key = ('call', name, ('bb%d' % b) if mutating else [_freeze(a) for a in args])
+                    v = self.atom(st, name, key, t.get('dty') or '')
+                if not t['dest'].get('p'):
+                    st['env'][t['dest']['l']] = v
+                if t.get('to') is None:
+                    return                      # diverges
+                st['b'] = t['to']
+                continue
+            if k == 'switch':
+                try:
+                    st['b'] = self.target(st, t)
+                    # the block is left: allow the decision to be re-taken on the forks only
+                    continue
+                except _Need as need:
+                    for val in need.domain:
+                        n = self.fork(st)
+                        n['assign'][need.atom] = val
+                        n['seen'] = st['seen'] - {b}
+                        # re-enter this block: its statements are idempotent on the environment
+                        work.append(n)
+                    return
+            if k == 'unreachable':
+                return
+            raise _Undecidable('terminator %s' % k)
+
+
+def _long_option_expected(a):
+    """What parse_long_option must do, as a function of the values it can look at."""
+    if a['next_if'] == 'None':
+        return ('no-option', None)
+    if a['long_match'] == 'Err':
+        return ('error', 'UnknownLongOption' if a['is_empty'] else 'AmbiguousLongOption')
+    if not (a['long_option_names'] and (a['extension_options'] or not a['is_extension'])):
+        return ('error', 'NonPortableLongOption')
+    if a['get_argument'] == 'None':
+        return ('error', 'UnexpectedOptionArgument') if a['find'] == 'Some' else ('option', 'None')
+    if a['find'] == 'Some':
+        return ('option', 'Some')
+    return ('option', 'Some') if a['next'] == 'Some' else ('error', 'MissingOptionArgument')
+
+
+_LONG_ATOMS = {'next_if': ['None', 'Some'], 'find': ['None', 'Some'], 'long_match': ['Ok', 'Err'], 'is_empty': [False, True],
+               'long_option_names': [False, True], 'extension_options': [False, True], 'is_extension': [False, True],
+               'get_argument': ['None', 'Required'], 'next': ['None', 'Some']}
+
+
+def _path_outcome(st, err_adt, occ_adt):
+    """('error', variant) | ('option', 'None'|'Some'|?) | ('no-option', None) | None from the returned value of a path."""
+    def opt(v):
+        if v[0] == 'adt' and v[1] == 'core::option::Option':
+            return v[2]
+        if v[0] == 'atom' and st['assign'].get(v[1]) in ('None', 'Some'):
+            return st['assign'][v[1]]
+        return None
+    r = st.get('ret')
+    if not r or r[0] != 'adt' or r[1] != 'core::result::Result':
+        return None
+    inner = list(r[3].values())
+    if len(inner) != 1:
+        return None
+    x = inner[0]
+    if r[2] == 'Err':
+        return ('error', x[2]) if x[0] == 'adt' and x[1] == err_adt else None
+    o = opt(x)
+    if o == 'None':
+        return ('no-option', None)
+    if o == 'Some' and x[0] == 'adt':
+        occ = list(x[3].values())[0]
+        if occ[0] == 'adt' and occ[1] == occ_adt and 'argument' in occ[3]:
+            return ('option', opt(occ[3]['argument']) or '?')
+    return None
+
+
 @RS.rule('C20.R3', 'K-GUARD+K-ORDER', 'the generic parser: options until neither parser accepts, one `--`, operands; exact before prefix; (argument spec x `=`) table; attached-argument branch')
 def r3(cx):
     F = cx.F
@@ -500,84 +767,93 @@ def r3(cx):
     fn = CS + 'parse_long_option'
     h = F.hir_of(fn)
     cx.fn(fn)
-    ms = [m for m in H.matches_in(h['body']) if m.get('src') == 'Normal' and callee(unwrap(m['scrut'])) == CS + 'long_match']
-    cx.require(len(ms) == 1, 'parse_long_option: match over long_match(..) not found')
-    m = ms[0]
-    rows = []
-    for arm in m['arms']:
-        keys = [last(k) if isinstance(k, str) else k for k in pat_keys(arm['pat'])]
-        built = _variants_built(arm['body'], CS + 'ParseError::')
-        g = None
-        if arm.get('guard'):
-            fields = sorted(x.get('name') for x in H.walk(arm['guard']) if x.get('k') == 'field' and (x.get('adt') or '').endswith('syntax::Mode'))
-            ext = [x for x in H.walk(arm['guard']) if x.get('k') == 'mcall' and x.get('name') == 'is_extension']
-            ops = sorted(x.get('op') for x in H.walk(arm['guard']) if x.get('k') in ('binary', 'unary'))
-            g = (tuple(fields), bool(ext), tuple(ops))
-        rows.append((keys, g, sorted(built), 'ret' in _kinds(arm['body'])))
-    cx.site('parse_long_option: %s' % rows)
-    cx.cellcount(len(rows))
-    want_rows = [(['Ok'], (('extension_options', 'long_option_names'), True, ('!', '&&', '||')), [], False),
-                 (['Ok'], None, ['NonPortableLongOption'], True),
-                 (['Err'], None, ['AmbiguousLongOption', 'UnknownLongOption'], True)]
-    if rows != want_rows:
-        cx.violation(fn, 'classification', 'a long option must be accepted iff long names are allowed and (extensions are allowed or the spec is '
-                     'not an extension); otherwise NonPortableLongOption; no/several candidates => Unknown/AmbiguousLongOption (found %s)' % rows,
-                     loc=hloc(h, m))
-    else:
-        err_arm = m['arms'][2]
-        ifs = [x for x in H.walk(err_arm['body']) if x.get('k') == 'if']
-        ok = len(ifs) == 1 and unwrap(ifs[0]['c']).get('name') == 'is_empty' and \
-            _variants_built(ifs[0]['t'], CS + 'ParseError::') == {'UnknownLongOption'} and \
-            _variants_built(ifs[0]['f'], CS + 'ParseError::') == {'AmbiguousLongOption'}
-        if not ok:
-            cx.violation(fn, 'unknown-vs-ambiguous', 'no candidate => UnknownLongOption, several => AmbiguousLongOption', loc=hloc(h, err_arm))
-    ms = [m for m in H.matches_in(h['body']) if m.get('src') == 'Normal' and (m.get('sty') or '').startswith('(' + CS + 'OptionArgumentSpec')]
-    cx.require(len(ms) == 1, 'parse_long_option: match over (argument spec, `=` position) not found')
-    m = ms[0]
-    sc = unwrap(m['scrut'])
-    cx.require(sc.get('k') == 'tup' and unwrap(sc['a'][0]).get('name') == 'get_argument', 'parse_long_option: scrutinee is not (spec.get_argument(), equal)')
-    AS = CS + 'OptionArgumentSpec::'
-    cells = {
-        ('None', 'None'): dict(errs=set(), calls=set(), value='None'),
-        ('None', 'Some'): dict(errs={'UnexpectedOptionArgument'}, calls=set(), value=None),
-        ('Required', 'None'): dict(errs={'MissingOptionArgument'}, calls={'next', 'is_none'}, value='local'),
-        ('Required', 'Some'): dict(errs=set(), calls={'drain'}, value='Some'),
-    }
-    for (a, e), want in cells.items():
-        val = ('tuple', [('variant', AS + a, []), ('variant', 'core::option::Option::' + e, [('any',)] if e == 'Some' else [])])
-        i, arm = H.first_matching_arm(m, val)
-        if i is None:
-            # the `=` may be carried as a flag instead of its position
-            i, arm = H.first_matching_arm(m, ('tuple', [('variant', AS + a, []), ('lit', e == 'Some')]))
-        cx.require(i is not None, 'parse_long_option: cell (%s, %s) not decidable: %s' % (a, e, arm))
-        errs = _variants_built(arm['body'], CS + 'ParseError::')
-        calls = _calls_named(arm['body']) - {'Err', 'Ok', 'Some'} - errs
-        b = unwrap(arm['body'])
-        tail = unwrap(b.get('e')) if b.get('k') == 'block' else b
-        value = None
-        if isinstance(tail, dict):
-            if tail.get('k') == 'path':
-                value = last(tail.get('def'))
-            elif tail.get('k') == 'call' and tail.get('ctor'):
-                value = last(callee(tail))
-            elif tail.get('k') == 'local':
-                value = 'local'
-        cx.site('parse_long_option: (%s, `=` %s) => errors %s, calls %s, value %s' % (a, 'present' if e == 'Some' else 'absent', sorted(errs), sorted(calls), value))
+    body = F.body(fn)
+    try:
+        paths = _Paths(F, body).run()
+    except _Undecidable as e:
+        cx.require(False, 'parse_long_option: the decisions of the function cannot be read as a table (%s)' % e)
+    cx.require(paths, 'parse_long_option: no path to a return')
+    ERR, OCC = CS + 'ParseError', CS + 'OptionOccurrence'
+    cells = {}
+    for st in paths:
+        asg = st['assign']
+        strange = sorted(set(asg) - set(_LONG_ATOMS))
+        cx.require(not strange, 'parse_long_option: a decision depends on %s, which is not one of the values the table is written over (%s)'
+                   % (strange, sorted(_LONG_ATOMS)))
+        cx.require(all(asg[k] in _LONG_ATOMS[k] for k in asg), 'parse_long_option: unexpected value in %s' % asg)
+        got = _path_outcome(st, ERR, OCC)
+        cx.require(got is not None,
+                   'parse_long_option: the value returned on the path %s is not a recognisable Ok(None) / Ok(Some(occurrence)) / Err(ParseError)' % asg)
+        free = [k for k in _LONG_ATOMS if k not in asg]
+        wants = set()
+        full = None
+        stack = [dict(asg)]
+        while stack:
+            cur = stack.pop()
+            rest = [k for k in free if k not in cur]
+            if rest:
+                for v in _LONG_ATOMS[rest[0]]:
+                    n = dict(cur)
+                    n[rest[0]] = v
+                    stack.append(n)
+                continue
+            wants.add(_long_option_expected(cur))
+            full = cur
+        called = {c[0] for c in st['calls']}
+        cellkey = None
+        if asg.get('long_match') == 'Ok' and 'get_argument' in asg and 'find' in asg:
+            cellkey = (asg['get_argument'], asg['find'])
+        if wants & {('error', 'NonPortableLongOption'), ('error', 'UnknownLongOption'), ('error', 'AmbiguousLongOption')} or \
+                got[1] in ('NonPortableLongOption', 'UnknownLongOption', 'AmbiguousLongOption') or cellkey is None:
+            desc = 'classification'
+        else:
+            desc = 'cell:%s:%s' % cellkey
+        shown = ', '.join('%s=%s' % (k, asg[k]) for k in _LONG_ATOMS if k in asg)
+        cells.setdefault((desc, shown), (got, wants))
         cx.cellcount(1)
-        # the essential operations of a cell (how they are spelled - is_none + return, match, let-else - is free)
-        core = {('Required', 'None'): {'next'}}.get((a, e), set())
-        value_ok = value == want['value'] if (a, e) == ('None', 'None') else True
-        if errs != want['errs'] or not core <= calls or not value_ok:
-            cx.violation(fn, 'cell:%s:%s' % (a, e), 'long option with argument spec %s and `=` %s: expected errors %s, operations %s, value %s; '
-                         'found %s, %s, %s' % (a, 'present' if e == 'Some' else 'absent', sorted(want['errs']), sorted(want['calls']), want['value'],
-                                               sorted(errs), sorted(calls), value), loc=hloc(h, arm))
-        if (a, e) == ('Required', 'Some') and errs == want['errs']:
+        # an option argument that is neither visibly None nor visibly Some(..): wrong where None is due, unreadable elsewhere
+        cx.require(got != ('option', '?') or wants == {('option', 'None')}, 'parse_long_option: the option argument recorded on the path %s is not '
+                   'recognisable as None / Some(..)' % asg)
+        if wants != {got}:
+            if desc == 'classification':
+                msg = ('a long option must be accepted iff long names are allowed and (extensions are allowed or the spec is not an extension); '
+                       'otherwise NonPortableLongOption; no/several candidates => Unknown/AmbiguousLongOption')
+            else:
+                msg = 'long option with argument spec %s and `=` %s' % (cellkey[0], 'present' if cellkey[1] == 'Some' else 'absent')
+            cx.violation(fn, desc, '%s: when %s the function must give %s, it gives %s' % (
+                msg, shown, ' or '.join(sorted('%s %s' % (w[0], w[1] or '') for w in wants)), '%s %s' % (got[0], got[1] or '')),
+                loc=body.loc(body.d))
+            continue
+        # the next argument is consumed exactly where it is the option argument
+        want_next = got in (('option', 'Some'), ('error', 'MissingOptionArgument')) and cellkey == ('Required', 'None')
+        if got[0] in ('option', 'error') and cellkey is not None and ('next' in called) != want_next:
+            cx.violation(fn, 'cell:%s:%s' % cellkey, 'long option with argument spec %s and `=` %s: the next argument must be consumed exactly when it '
+                         'is the option argument (consumed here: %s)' % (cellkey[0], 'present' if cellkey[1] == 'Some' else 'absent', 'next' in called),
+                         loc=body.loc(body.d))
+        if cellkey == ('Required', 'Some') and got == ('option', 'Some'):
             # drain(..index + 1): the name and the `=` are removed, nothing more
-            dr = [x for x in H.calls(arm['body']) if x.get('name') == 'drain']
-            rng = [y for x in dr for y in H.walk(x) if y.get('k') == 'binary' and y.get('op') == '+']
-            ok = len(rng) == 1 and H.lit_value(rng[0]['b']) == 1 and unwrap(rng[0]['a']).get('k') == 'local'
-            if dr and not ok:
-                cx.violation(fn, 'cell:Required:Some:drain', 'the argument of `--name=value` is what follows the `=`: drain(..index + 1)', loc=hloc(h, arm))
+            dr = [c for c in st['calls'] if c[0] == 'drain']
+            cx.require(len(dr) == 1 and len(dr[0][1]) == 2, 'parse_long_option: `--name=value`: how the name is removed from the field is not recognisable '
+                       '(expected one String::drain)')
+            rng = dr[0][1][1]
+            ok = None
+            if rng[0] == 'adt' and len(rng[3]) == 1:
+                end = list(rng[3].values())[0]
+                while end[0] == 'proj' and end[2] == 'f:0' and end[1][0] == 'binop':
+                    end = end[1]
+                is_index = lambda v: v[0] == 'proj' and v[2] == 'f:0' and v[1][0] == 'proj' and v[1][2] == 'v:Some' and v[1][1] == ('atom', 'find')
+                if last(rng[1]) == 'RangeTo':
+                    if end[0] == 'binop' and end[1] in ('Add', 'AddWithOverflow', 'AddUnchecked'):
+                        ok = is_index(end[2]) and end[3][0] == 'const' and re.match(r'1(_usize)?$', end[3][1]) is not None
+                    elif is_index(end):
+                        ok = False
+                elif last(rng[1]) == 'RangeToInclusive':
+                    ok = True if is_index(end) else None
+            cx.require(ok is not None, 'parse_long_option: `--name=value`: the range removed from the field is not recognisable: %s' % (rng,))
+            if not ok:
+                cx.violation(fn, 'cell:Required:Some:drain', 'the argument of `--name=value` is what follows the `=`: drain(..index + 1)', loc=body.loc(dr[0][2]))
+    for (desc, shown), (got, wants) in sorted(cells.items(), key=repr):
+        cx.site('parse_long_option: %s => %s %s' % (shown, got[0], got[1] or ''))
     # ---- parse_short_options
     fn = CS + 'parse_short_options'
     h = F.hir_of(fn)
@@ -593,18 +869,73 @@ def r3(cx):
         cx.violation(fn, 'short:None:argument', 'an option without argument must be recorded with argument: None', loc=hloc(h, m))
     if 'break' not in _kinds(req_arm) or 'push' not in _calls_named(req_arm):
         cx.violation(fn, 'short:Required:break', 'an option that takes an argument ends the group: the rest of the field is its argument', loc=hloc(h, m))
-    ifs = [x for x in H.walk(req_arm) if x.get('k') == 'if' and unwrap(x['c']).get('k') == 'binary' and unwrap(x['c']).get('op') == '=='
-           and 0 in (H.lit_value(unwrap(x['c'])['a']), H.lit_value(unwrap(x['c'])['b']))]
-    ok = False
-    if len(ifs) == 1:
-        t, f = ifs[0]['t'], ifs[0]['f']
-        t_ok = 'next' in _calls_named(t) and _variants_built(t, CS + 'ParseError::') == {'MissingOptionArgument'} and 'try' in _kinds(t)
-        f_ok = 'drain' in _calls_named(f) and 'next' not in _calls_named(f) and _variants_built(f, CS + 'ParseError::') == {'UnseparatedOptionArgument'}
-        guard_ok = False
-        for n, g in guarded_nodes(f):
-            if n.get('k') == 'call' and n.get('ctor') and last(callee(n)) == 'UnseparatedOptionArgument':
-                guard_ok = any(c.get('k') == 'field' and c.get('name') == 'option_arguments_in_same_field' and pol is False for c, pol in g.other)
-        ok = t_ok and f_ok and guard_ok
+    # decided on the MIR: what each site is conditioned on (`== 0` / `> 0` / `!= 0` / is_empty, either branch order; `ok_or(..)?`,
+    # match, let-else or is_none + return for the missing argument)
+    sb = F.body(fn)
+    sdu = Q.DefUse(sb)
+    NEXT = [re.compile(r'Peekable<.*Iterator>::next$')]
+    zero = lambda o: 'c' in o and re.match(r'0(_usize)?$', str(o['c'])) is not None
+
+    def site_conds(blk):
+        """(remainder is empty: {True/False}, mode.option_arguments_in_same_field: {True/False}, next() returned None: bool)"""
+        empty, same, none = set(), set(), False
+        for org, lab, e in Q.implied_conditions(F, sb, sdu, blk):
+            org, lab = Q.peel_not(sdu, org, lab)
+            if org['k'] == 'discr' and lab == ('variant', 'None') and not (org['pl'].get('p')):
+                src = Q.value_source(sb, sdu, {'cp': {'l': org['pl']['l']}})
+                none = none or (src is not None and Q.callee_is(src, NEXT))
+            if lab[0] != 'bool':
+                continue
+            if org['k'] == 'binop':
+                rv = org['rv']
+                za, zb = zero(rv['a']), zero(rv['b'])
+                if za == zb:
+                    continue
+                src = Q.value_source(sb, sdu, rv['b'] if za else rv['a'])
+                if src is None or not Q.callee_is(src, ['*::len']):
+                    continue
+                op = rv['op']
+                if op == 'Eq' or (op == 'Le' and zb) or (op == 'Ge' and za):
+                    empty.add(lab[1])
+                elif op == 'Ne' or (op == 'Gt' and zb) or (op == 'Lt' and za):
+                    empty.add(not lab[1])
+            elif org['k'] == 'call' and Q.callee_is(org['t'], ['*::is_empty']):
+                empty.add(lab[1])
+            elif org['k'] == 'call' and Q.callee_is(org['t'], ['*::is_none', '*::is_some']) and org['t']['a']:
+                src = Q.value_source(sb, sdu, org['t']['a'][0])
+                if src is not None and Q.callee_is(src, NEXT) and lab[1] == Q.callee_is(org['t'], ['*::is_none']):
+                    none = True
+            elif org['k'] == 'place' and any(isinstance(x, dict) and x.get('f') == 'option_arguments_in_same_field' for x in org['pl'].get('p') or []):
+                same.add(lab[1])
+        return empty, same, none
+
+    nexts = Q.find_calls(sb, NEXT)
+    drains = Q.find_calls(sb, ['*::String::drain'])
+    missing = Q.find_aggregates(sb, CS + 'ParseError', 'MissingOptionArgument')
+    unsep = Q.find_aggregates(sb, CS + 'ParseError', 'UnseparatedOptionArgument')
+    if not missing or not unsep:
+        inner = [x for lb in F.logical(fn) if lb is not sb for v in ('MissingOptionArgument', 'UnseparatedOptionArgument')
+                 for x in Q.find_aggregates(lb, CS + 'ParseError', v)]
+        cx.require(not inner, 'parse_short_options: an option-argument error is built inside a closure: the condition it is returned under is not read')
+    t_ok = bool(nexts) and all(site_conds(b)[0] == {True} for b, t in nexts) and bool(missing)
+    for b, j, st in missing:
+        empty, same, none = site_conds(b)
+        if not none:
+            # `arguments.next().ok_or(Missing)?`: None of next() becomes the error, which `?` returns
+            l = st['lhs']['l']
+            users = [(ub, ut) for ub, ut in Q.find_calls(sb, ['*::Option::<T>::ok_or']) if len(ut['a']) == 2 and Q.operand_local(ut['a'][1]) == l]
+            none = len(users) == 1 and (lambda src: src is not None and Q.callee_is(src, NEXT))(Q.value_source(sb, sdu, users[0][1]['a'][0])) and \
+                any(Q.operand_local(bt['a'][0]) == users[0][1]['dest']['l'] for bb_, bt in Q.find_calls(sb, Q.TRY_BRANCH) if bt['a'])
+        t_ok = t_ok and empty == {True} and none
+    f_ok = bool(drains) and all(site_conds(b)[0] == {False} for b, t in drains) and bool(unsep)
+    guard_ok = bool(unsep)
+    for b, j, st in unsep:
+        empty, same, none = site_conds(b)
+        f_ok = f_ok and empty == {False}
+        guard_ok = guard_ok and same == {False}
+    ok = t_ok and f_ok and guard_ok
+    cx.site('parse_short_options: next argument taken when the rest of the field is empty: %s (missing => MissingOptionArgument); rest drained when '
+            'not empty: %s; UnseparatedOptionArgument only when the mode forbids attached arguments: %s' % (t_ok, f_ok, guard_ok))
     cx.cellcount(2)
     if not ok:
         cx.violation(fn, 'short:Required:argument', 'the argument of a short option is the non-empty rest of the field (rejected only when '
